@@ -1,3 +1,412 @@
 package main
 
-func cmdCheck(args []string) int { return 2 }
+import (
+	"encoding/json"
+	"flag"
+	"fmt"
+	"os"
+	"path/filepath"
+	"sort"
+	"strconv"
+	"strings"
+	"time"
+)
+
+// ---------------------------------------------------------------------------
+// Property check
+
+type KnownFinding struct {
+	Status     string `json:"status"` // open | fixed
+	Property   string `json:"property"`
+	Obligation string `json:"obligation"`
+	What       string `json:"what"`
+	Except     string `json:"except,omitempty"`
+	Commit     string `json:"commit,omitempty"`
+	Witness    string `json:"witness,omitempty"`
+}
+
+type ExpectedFile map[string][]string
+
+func loadJSON(path string, v interface{}) error {
+	b, err := os.ReadFile(path)
+	if err != nil {
+		return err
+	}
+	return json.Unmarshal(b, v)
+}
+
+// stableKinds are obligation kinds whose names do not depend on source positions.
+func stableName(o *Oblig) bool {
+	switch o.Kind {
+	case "post", "inv.init", "dec", "assert", "lemma", "pre@call", "scan":
+		return true
+	case "inv.step":
+		return !strings.Contains(o.Label, "autoframe")
+	}
+	return false
+}
+
+func propsOfClause(cl *Clause) []string { return cl.Tags }
+
+// functionsFor lists the functions (non-extern) that carry a clause tagged with prop.
+func (e *Engine) functionsFor(prop string) []string {
+	var out []string
+	for _, name := range e.specs.FuncOrder {
+		ct := e.specs.Funcs[name]
+		if ct.Extern {
+			continue
+		}
+		tagged := false
+		chk := func(cls []*Clause) {
+			for _, c := range cls {
+				if hasTag(c.Tags, prop) {
+					tagged = true
+				}
+			}
+		}
+		chk(ct.Requires)
+		chk(ct.Ensures)
+		chk(ct.AtCall)
+		for _, l := range ct.Loops {
+			chk(l)
+		}
+		if ct.Opts["sweep:"+prop] {
+			tagged = true
+		}
+		if tagged {
+			out = append(out, name)
+		}
+	}
+	return out
+}
+
+type checkOutcome struct {
+	funcs      []*FuncResult
+	obls       []*Oblig
+	violations []violation
+	known      []string
+	genErrs    []string
+	lemmasSkip []string
+}
+
+type violation struct {
+	obl    string
+	reason string
+	replay string
+	noIn   bool
+}
+
+func cmdCheck(args []string) int {
+	fs := flag.NewFlagSet("check", flag.ExitOnError)
+	prop := fs.String("p", "", "property id")
+	tier := fs.String("tier", "", "quick|thorough")
+	writeExpected := fs.Bool("write-expected", false, "record the obligation names generated on this tree")
+	fs.Parse(args)
+	if *prop == "" {
+		fmt.Fprintln(os.Stderr, "check: -p required")
+		return 2
+	}
+	if *tier == "" {
+		*tier = os.Getenv("VERIF_TIER")
+	}
+	if *tier == "" {
+		*tier = "quick"
+	}
+	seed := 0
+	if s := os.Getenv("VERIF_SEED"); s != "" {
+		seed, _ = strconv.Atoi(s)
+	}
+	t0 := time.Now()
+	e, err := setup()
+	if err != nil {
+		// the tree does not load: nothing can be decided
+		fmt.Printf("govc: cannot load the tree: %v\n", err)
+		rp := writeReplay(*prop, "load#generator#tree", map[string]interface{}{"obligation": "load#generator#tree", "error": err.Error()})
+		fmt.Printf("VIOLATION property=%s replay=%s no-failing-input-found\n", *prop, rp)
+		writeEvidence(*prop, *tier, seed, nil, nil, []violation{{obl: "load", reason: err.Error()}}, nil, time.Since(t0).Seconds(), nil)
+		return 1
+	}
+	budget := 60
+	if *tier == "thorough" {
+		budget = 600
+	}
+	out := e.runProperty(*prop, *tier, budget)
+	// expected obligations (vacuity / disappearance guard)
+	expPath := filepath.Join(verifDir, "expected_obligations.json")
+	exp := ExpectedFile{}
+	loadJSON(expPath, &exp)
+	have := map[string]bool{}
+	var stable []string
+	for _, o := range out.obls {
+		have[o.Name] = true
+		if stableName(o) {
+			stable = append(stable, o.Name)
+		}
+	}
+	sort.Strings(stable)
+	if *writeExpected {
+		exp[*prop] = stable
+		b, _ := json.MarshalIndent(exp, "", " ")
+		os.WriteFile(expPath, b, 0o644)
+		fmt.Printf("recorded %d expected obligations for %s\n", len(stable), *prop)
+	} else {
+		for _, n := range exp[*prop] {
+			if !have[n] {
+				skipped := false
+				for _, l := range out.lemmasSkip {
+					if strings.HasPrefix(n, "lemma:"+l+"#") {
+						skipped = true
+					}
+				}
+				if skipped {
+					continue
+				}
+				out.violations = append(out.violations, violation{obl: n, reason: "expected obligation was not generated on this tree (function, loop or call site it is anchored to is gone, or the generator could not handle the changed code)", noIn: true})
+			}
+		}
+	}
+	if len(out.obls) == 0 {
+		out.violations = append(out.violations, violation{obl: *prop + "#vacuity", reason: "no obligations generated", noIn: true})
+	}
+	// known findings
+	var kfs []KnownFinding
+	loadJSON(filepath.Join(verifDir, "known_findings.json"), &kfs)
+	open := map[string]*KnownFinding{}
+	for i := range kfs {
+		if kfs[i].Status == "open" && kfs[i].Property == *prop {
+			open[kfs[i].Obligation] = &kfs[i]
+		}
+	}
+	code := 0
+	var reported []violation
+	for _, v := range out.violations {
+		if kf, ok := open[v.obl]; ok {
+			fmt.Printf("KNOWN-FINDING: property=%s %s %s\n", *prop, v.obl, kf.What)
+			out.known = append(out.known, v.obl)
+			continue
+		}
+		if v.replay == "" {
+			v.replay = writeReplay(*prop, v.obl, map[string]interface{}{"obligation": v.obl, "reason": v.reason, "outcome": "no-failing-input-found"})
+			v.noIn = true
+		}
+		suffix := ""
+		if v.noIn {
+			suffix = " no-failing-input-found"
+		}
+		fmt.Printf("VIOLATION property=%s replay=%s%s\n", *prop, v.replay, suffix)
+		fmt.Printf("  obligation: %s\n  reason: %s\n", v.obl, v.reason)
+		reported = append(reported, v)
+		code = 1
+	}
+	wall := time.Since(t0).Seconds()
+	writeEvidence(*prop, *tier, seed, e, out, reported, out.known, wall, nil)
+	nd := 0
+	for _, o := range out.obls {
+		if o.Res.Status == o.Expect {
+			nd++
+		}
+	}
+	fmt.Printf("%s %s: %d functions, %d obligations, %d discharged, %d violations, %d known findings, %.1fs\n", *prop, *tier, len(out.funcs), len(out.obls), nd, len(reported), len(out.known), wall)
+	return code
+}
+
+func (e *Engine) runProperty(prop, tier string, budget int) *checkOutcome {
+	out := &checkOutcome{}
+	safety := prop == "C03"
+	work := e.functionsFor(prop)
+	seen := map[string]bool{}
+	for len(work) > 0 {
+		name := work[0]
+		work = work[1:]
+		if seen[name] {
+			continue
+		}
+		seen[name] = true
+		res := e.verifyFunc(name, prop, safety)
+		out.funcs = append(out.funcs, res)
+		if res.Err != nil {
+			out.genErrs = append(out.genErrs, name+": "+res.Err.Error())
+			out.violations = append(out.violations, violation{obl: name + "#generator#unsupported", reason: "the generator cannot derive obligations for this function on this tree: " + res.Err.Error(), noIn: true})
+			continue
+		}
+		out.obls = append(out.obls, res.Obls...)
+		for _, u := range res.Used {
+			if !seen[u] {
+				work = append(work, u)
+			}
+		}
+	}
+	// lemmas of the property
+	for _, ln := range e.specs.LemmaOrd {
+		lm := e.specs.Lemmas[ln]
+		if !hasTag(lm.Tags, prop) {
+			continue
+		}
+		if lm.Slow && tier != "thorough" {
+			out.lemmasSkip = append(out.lemmasSkip, ln)
+			continue
+		}
+		res := e.verifyLemma(ln)
+		out.funcs = append(out.funcs, res)
+		if res.Err != nil {
+			out.violations = append(out.violations, violation{obl: "lemma:" + ln + "#generator", reason: res.Err.Error(), noIn: true})
+			continue
+		}
+		out.obls = append(out.obls, res.Obls...)
+	}
+	// syntactic scans that several properties lean on
+	out.obls = append(out.obls, e.scanObligations(prop)...)
+	solveAll(out.obls, budget)
+	for _, o := range out.obls {
+		if o.Res.Status == o.Expect {
+			continue
+		}
+		if o.Expect == "sat" {
+			if o.Res.Status == "unsat" {
+				out.violations = append(out.violations, violation{obl: o.Name, reason: "vacuity: the assumptions of " + o.Func + " are contradictory", noIn: true})
+			} else {
+				// inconclusive cover check: not a violation
+				o.Res.Status = "sat" // counted as not contradicting
+				o.Res.Solver += " (inconclusive)"
+			}
+			continue
+		}
+		v := violation{obl: o.Name, reason: fmt.Sprintf("obligation not discharged (%s by %s): %s", o.Res.Status, o.Res.Solver, o.Text)}
+		v.replay, v.noIn = e.tryReplay(prop, o)
+		out.violations = append(out.violations, v)
+	}
+	return out
+}
+
+func writeReplay(prop, obl string, content map[string]interface{}) string {
+	dir := filepath.Join(verifDir, "replays", prop)
+	os.MkdirAll(dir, 0o755)
+	path := filepath.Join(dir, sanitize(obl)+".json")
+	b, _ := json.MarshalIndent(content, "", " ")
+	os.WriteFile(path, b, 0o644)
+	return path
+}
+
+func writeEvidence(prop, tier string, seed int, e *Engine, out *checkOutcome, viol []violation, known []string, wall float64, extra map[string]interface{}) {
+	cov := map[string]interface{}{}
+	nObl, nDis := 0, 0
+	var perObl []map[string]interface{}
+	var samples []interface{}
+	solverTotal := 0.0
+	funcs := []string{}
+	assumed := map[string]bool{}
+	inlined := map[string]bool{}
+	var genErrs []string
+	bySolver := map[string]int{}
+	if out != nil {
+		for _, f := range out.funcs {
+			funcs = append(funcs, f.Name)
+			for _, a := range f.Assumed {
+				assumed[a] = true
+			}
+			for _, a := range f.Inlined {
+				inlined[a] = true
+			}
+		}
+		genErrs = out.genErrs
+		for _, o := range out.obls {
+			nObl++
+			ok := o.Res.Status == o.Expect
+			if ok {
+				nDis++
+			}
+			solverTotal += o.Res.Seconds
+			bySolver[o.Res.Solver]++
+			perObl = append(perObl, map[string]interface{}{"name": o.Name, "kind": o.Kind, "status": o.Res.Status, "solver": o.Res.Solver, "seconds": round3(o.Res.Seconds), "smt_sha": o.Res.SHA})
+			if len(samples) < 6 && (o.Kind == "post" || o.Kind == "inv.step" || o.Kind == "lemma" || o.Kind == "assert") {
+				samples = append(samples, map[string]interface{}{"obligation": o.Name, "clause": o.Text, "tags": o.Tags, "result": o.Res.Status, "solver": o.Res.Solver})
+			}
+		}
+	}
+	if len(samples) == 0 {
+		samples = append(samples, map[string]interface{}{"note": "no obligation samples"})
+	}
+	var assumedL, inlinedL []string
+	for a := range assumed {
+		assumedL = append(assumedL, a)
+	}
+	for a := range inlined {
+		inlinedL = append(inlinedL, a)
+	}
+	sort.Strings(assumedL)
+	sort.Strings(inlinedL)
+	cov["obligations"] = nObl
+	cov["discharged"] = nDis
+	cov["checker_cmd"] = fmt.Sprintf("/verif/bin/govc check -p %s -tier %s", prop, tier)
+	cov["trusted_base"] = []string{
+		"govc VC generator (SSA -> SMT translation, contract parser, memory model): unverified",
+		"go/ssa (x/tools v0.29.0) as the semantics of the source; Go type safety (no unsafe/cgo/asm in astits)",
+		"SMT solvers: an obligation is discharged when one of z3 4.8.12 / z3-new 5.1.0 / cvc5 1.0.3 answers unsat",
+	}
+	cov["samples"] = samples
+	cov["functions_under_contract"] = funcs
+	cov["per_obligation"] = perObl
+	cov["solver_seconds_total"] = round3(solverTotal)
+	cov["discharged_by_solver"] = bySolver
+	cov["assumed_callee_contracts"] = assumedL
+	cov["inlined_callees_verified_from_source"] = inlinedL
+	cov["generator_errors"] = genErrs
+	cov["known_findings_reported"] = known
+	if out != nil {
+		cov["lemmas_assumed_in_this_tier"] = out.lemmasSkip
+	}
+	var vl []string
+	for _, v := range viol {
+		vl = append(vl, v.obl)
+	}
+	cov["violated_obligations"] = vl
+	for k, v := range extra {
+		cov[k] = v
+	}
+	assumptions := []string{
+		"integers are fixed-width bit-vectors with Go wrap-around semantics (no mathematical-integer abstraction)",
+		"machine bounds: slice lengths/offsets < 2^48; fewer than 2^31 allocations; allocation never fails",
+		"sequential use of one instance; user callbacks do not panic and do not touch library state",
+		"package-level variables are not assigned outside init (checked by the global-store scan where listed)",
+	}
+	for _, a := range assumedL {
+		assumptions = append(assumptions, "assumed contract / model: "+a)
+	}
+	ev := map[string]interface{}{
+		"property_id": prop,
+		"tier":        tier,
+		"seed":        seed,
+		"level":       "proof",
+		"coverage":    cov,
+		"assumptions": assumptions,
+		"wall_s":      round3(wall),
+		"violations":  len(viol),
+	}
+	os.MkdirAll(filepath.Join(verifDir, "evidence"), 0o755)
+	b, _ := json.MarshalIndent(ev, "", " ")
+	os.WriteFile(filepath.Join(verifDir, "evidence", prop+".json"), b, 0o644)
+}
+
+func round3(f float64) float64 { return float64(int(f*1000+0.5)) / 1000 }
+
+// scanObligations: syntactic whole-package checks, reported as obligations of kind "scan".
+func (e *Engine) scanObligations(prop string) []*Oblig {
+	var out []*Oblig
+	switch prop {
+	case "C10", "C16", "C09":
+		bad := e.globalStores()
+		o := &Oblig{Name: "package#scan#no_store_to_package_vars", Kind: "scan", Func: "package", Text: "no function outside init stores to a package-level variable (so tableCRC32, bytesPool and the error sentinels are constants)", Expect: "unsat", Goal: "true"}
+		if len(bad) > 0 {
+			o.Goal = "false"
+			o.Text += ": " + strings.Join(bad, "; ")
+			o.Guard = "true"
+			o.Script = "(assert true)\n(check-sat)\n"
+			o.Expect = "unsat"
+			o.Res = SolveResult{Status: "sat", Solver: "ssa-scan"}
+		} else {
+			o.Res = SolveResult{Status: "unsat", Solver: "ssa-scan"}
+		}
+		out = append(out, o)
+	}
+	return out
+}
